@@ -226,6 +226,38 @@ func runC15(r *Run) {
 			}
 		}
 	}
+	// construction-phase code (options: func(*Client) values) runs only during construction: invoking an
+	// option on a client that is already shared performs its plain field stores concurrently with readers
+	for _, fn := range p.LibFuncs() {
+		if constructionPhase(m, fn) || (fn.Parent() != nil && constructionPhase(m, fn.Parent())) {
+			continue
+		}
+		eachInstr(fn, func(b *ssa.BasicBlock, i int, in ssa.Instruction) {
+			ci, ok := in.(ssa.CallInstruction)
+			if !ok {
+				return
+			}
+			cc := ci.Common()
+			if cc.IsInvoke() {
+				return
+			}
+			isOpt := false
+			if sig, isSig := cc.Value.Type().Underlying().(*types.Signature); isSig && sig.Recv() == nil && sig.Results().Len() == 0 && sig.Params().Len() == 1 {
+				if pt, isP := sig.Params().At(0).Type().(*types.Pointer); isP && pt.Elem() == types.Type(m.T) {
+					if sc := cc.StaticCallee(); sc == nil || sc.Parent() != nil || constructionPhase(m, sc) {
+						// a function value of option shape, or a construction-phase function itself
+						if sc == nil || constructionPhase(m, sc) {
+							isOpt = true
+						}
+					}
+				}
+			}
+			if isOpt {
+				ls.Instance(fnName(fn)+"|option call", true, nil)
+				ls.Violation(fn, instrPos(in), "client option applied after construction", "an option (a func(*Client) that stores fields without synchronisation) is applied to a client that other goroutines may already be using: data race with Start/Do on the fields it writes")
+			}
+		})
+	}
 	ls.Done()
 
 	// ---- connection ownership
@@ -289,6 +321,7 @@ func runC15(r *Run) {
 				continue
 			}
 			li := computeLocks(fn)
+			liMay := computeLocksMay(fn)
 			eachInstr(fn, func(b *ssa.BasicBlock, i int, in ssa.Instruction) {
 				ci, ok := in.(ssa.CallInstruction)
 				if !ok {
@@ -300,7 +333,7 @@ func runC15(r *Run) {
 				if lockOpOf(in) != nil {
 					return
 				}
-				held := li.Held(in)
+				held := liMay.Held(in) // held on SOME path is enough for a blocking call to be wrong
 				inClient := false
 				for obj := range held {
 					if strings.HasSuffix(obj, "."+m.Mux.Name()) && strings.HasPrefix(lockClassOfHeld(li, obj), m.T.Obj().Name()+".") {
